@@ -44,7 +44,8 @@ Print Assumptions C10_share_not_transferable.
 
 (* A delegator can always undelegate the value of their shares: after any history, an
    undelegation of amt <= floor(B * shares / supply) by a holder of fewer than 10^32 shares goes
-   through, provided staking has a free unbonding entry for the module (see finding 1) and the
+   through, provided staking has a free unbonding entry for the module (see finding 1), reports
+   an unbonded amount between 0 and the request (it records and later releases that amount), and the
    rewards received per denom stay below 1/kappa (about 10^33). *)
 Theorem C10_undelegate_available : forall denoms users vals, NoDup denoms -> NoDup users -> NoDup vals ->
   forall ub tr o u v amt rcp b, wf_trace users tr ->
@@ -52,6 +53,7 @@ Theorem C10_undelegate_available : forall denoms users vals, NoDup denoms -> NoD
   In u users -> 0 <= v -> 0 <= rcp -> 0 < amt ->
   cB (cells s v) = Some b -> amt * cT (cells s v) <= b * csh (cells s v) u ->
   0 < cT (cells s v) -> csh (cells s v) u < SHLIM -> cent (cells s v) < o_max o ->
+  0 <= o_ret o <= amt ->
   (forall d, In d denoms -> (kappa * inject_Z (g_recv g v d) < 1)%Q) ->
   exists s', undelegate denoms true s o u v amt FEE rcp = Ok s'.
 Proof. exact undelegate_available. Qed.
